@@ -1,5 +1,5 @@
 #!/bin/sh
 # run every check against every persistent scratch worktree under /tmp/rfw (false-alarm experiment); summary on stdout
 mkdir -p /root/rf_out; rm -f /root/rf_out/*.out
-ls /tmp/rfw | xargs -P 6 -I{} sh -c 'for c in C01 C02 C03 C04 C05 C06 C07 C08 C09 C10 C11 C12 C13 C14 C15 C16 C17 C18 C19 C20; do OUT=$(/verif/tools/rf.sh {} $c 2>&1); if ! echo "$OUT" | tail -1 | grep -q HELD; then echo "== $c: $(echo "$OUT" | tail -1)"; echo "$OUT" | grep -E "violated:|ANALYSIS-BROKEN" | head -8 | cut -c1-260; fi; done > /root/rf_out/{}.out 2>&1'
+ls ${RFW:-/tmp/rfw} | xargs -P 6 -I{} sh -c 'for c in C01 C02 C03 C04 C05 C06 C07 C08 C09 C10 C11 C12 C13 C14 C15 C16 C17 C18 C19 C20; do OUT=$(/verif/tools/rf.sh {} $c 2>&1); if ! echo "$OUT" | tail -1 | grep -q HELD; then echo "== $c: $(echo "$OUT" | tail -1)"; echo "$OUT" | grep -E "violated:|ANALYSIS-BROKEN" | head -8 | cut -c1-260; fi; done > /root/rf_out/{}.out 2>&1'
 for f in /root/rf_out/*.out; do echo "### $(basename $f .out): $(grep -c '^==' $f) non-held"; cat $f; done
